@@ -2,6 +2,8 @@
 
 use crate::framework::Check;
 
+pub mod capi_conc;
+pub mod conc;
 pub mod crash;
 pub mod faults;
 pub mod lifecycle;
@@ -10,6 +12,8 @@ pub fn all() -> Vec<&'static dyn Check> {
     let mut v: Vec<&'static dyn Check> = Vec::new();
     v.extend(lifecycle::checks());
     v.extend(crash::checks());
+    v.extend(conc::checks());
+    v.extend(capi_conc::checks());
     v.extend(faults::checks());
     v
 }
